@@ -273,6 +273,7 @@ func (r *vmCompilerRoles) trace(fn *vmFn, p *vmPath) []vmEm {
 			}
 			if e.Fn == r.insert && len(e.Call.Args) >= 1 {
 				op, opText, ctor, args, _ := r.instrOf(fn, p.ev, i, e.Call.Args[0])
+				args = vmParamArgs(info, p, i, args)
 				out = append(out, vmEm{kind: emEmit, op: op, opText: opText, ctor: ctor, args: args, call: e.Call, pos: e.Pos, evIdx: i, resultObj: resOf[e.Call], deferred: e.Deferred})
 				continue
 			}
@@ -301,6 +302,129 @@ func (r *vmCompilerRoles) trace(fn *vmFn, p *vmPath) []vmEm {
 		}
 	}
 	return out
+}
+
+// vmParamArgs: operands that are parameters of a spliced-in emission helper
+// are replaced by the arguments the caller bound to them (so that the operand
+// of `emitJump(l)` is the caller's label variable).
+func vmParamArgs(info *types.Info, p *vmPath, at int, args []ast.Expr) []ast.Expr {
+	out := make([]ast.Expr, len(args))
+	for i, a := range args {
+		out[i] = a
+		// `-n`, `(n)`, `*n`: the operand inside is resolved
+		switch x := a.(type) {
+		case *ast.UnaryExpr:
+			if in := vmParamArgs(info, p, at, []ast.Expr{x.X}); in[0] != x.X {
+				out[i] = &ast.UnaryExpr{OpPos: x.OpPos, Op: x.Op, X: in[0]}
+			}
+			continue
+		case *ast.ParenExpr:
+			out[i] = vmParamArgs(info, p, at, []ast.Expr{x.X})[0]
+			continue
+		case *ast.StarExpr:
+			if in := vmParamArgs(info, p, at, []ast.Expr{x.X}); in[0] != x.X {
+				out[i] = &ast.StarExpr{Star: x.Star, X: in[0]}
+			}
+			continue
+		}
+		idx := at
+		for hop := 0; hop < 6; hop++ {
+			id, ok := ast.Unparen(out[i]).(*ast.Ident)
+			if !ok {
+				break
+			}
+			if p.binds != nil {
+				if next, k, kind := vmResolveStep(info, p.binds, p.ev, idx, id); next != nil && (kind == vmBindParam || kind == vmBindRecv) {
+					out[i], idx = next, k
+					continue
+				}
+			}
+			// a plain copy of another local (`target := afterLabel`, `target = elseLabel`): the operand
+			// denotes the variable the value was copied from
+			k, a := vmLastAssignAt(info, p.ev, idx, vmObjOf(info, id))
+			if a == nil || a.K != evAssign || a.Rhs == nil || (a.Tok != token.DEFINE && a.Tok != token.ASSIGN) {
+				break
+			}
+			if as, isAs := a.Stmt.(*ast.AssignStmt); isAs && len(as.Lhs) != len(as.Rhs) {
+				break
+			}
+			src, isId := ast.Unparen(a.Rhs).(*ast.Ident)
+			if !isId {
+				break
+			}
+			if v, isVar := vmObjOf(info, src).(*types.Var); !isVar || v.IsField() || v.Parent() == nil || v.Parent() == v.Pkg().Scope() {
+				break
+			}
+			out[i], idx = src, k
+		}
+	}
+	return out
+}
+
+// vmEmitWrapper: a straight-line emitter helper that takes no AST node
+// (`func (c *Compiler) emitJump(l string, s Span) { c.insert(newJump(l), s) }`):
+// an emission primitive under another name, spliced into its callers.
+func (r *vmCompilerRoles) emitWrapper(callee *vmFn) bool {
+	return r.emitWrapperDepth(callee, 0)
+}
+
+func (r *vmCompilerRoles) emitWrapperDepth(callee *vmFn, depth int) bool {
+	obj, _ := callee.info.Defs[callee.fd.Name].(*types.Func)
+	if obj == nil || !r.emitters[obj] || obj == r.insert || callee.pkg.Types != r.insertPkg() || depth > 3 {
+		return false
+	}
+	for _, roles := range []*vmStackRoles{r.scopes, r.loops} {
+		if _, is := roles.push[obj]; is {
+			return false
+		}
+		if _, is := roles.pop[obj]; is {
+			return false
+		}
+	}
+	if !vmStraightLine(callee) {
+		return false
+	}
+	// it only emits: the emitters it calls are the insert primitive or wrappers themselves (a helper
+	// that compiles a child node is a compile function, whatever its shape)
+	ok := true
+	ast.Inspect(callee.fd.Body, func(n ast.Node) bool {
+		if call, isCall := n.(*ast.CallExpr); isCall {
+			if g := CalleeOf(callee.info, call); g != nil && r.emitters[g] && g != r.insert {
+				if gf := r.byObj[g]; gf == nil || gf.fd == callee.fd || !r.emitWrapperDepth(gf, depth+1) {
+					ok = false
+				}
+			}
+		}
+		return ok
+	})
+	return ok
+}
+
+func (r *vmCompilerRoles) insertPkg() *types.Package { return r.insert.Pkg() }
+
+// vmStraightLine: a short body of simple statements only.
+func vmStraightLine(fn *vmFn) bool {
+	if len(fn.fd.Body.List) > 6 {
+		return false
+	}
+	for _, s := range fn.fd.Body.List {
+		switch s.(type) {
+		case *ast.ExprStmt, *ast.AssignStmt, *ast.ReturnStmt, *ast.DeclStmt, *ast.IncDecStmt:
+		default:
+			return false
+		}
+	}
+	return true
+}
+
+// vmPathObj: the variable an operand denotes on the path, parameters of
+// spliced-in helpers replaced by the caller's arguments.
+func vmPathObj(info *types.Info, p *vmPath, at int, e ast.Expr) types.Object {
+	if e == nil {
+		return nil
+	}
+	r := vmParamArgs(info, p, at, []ast.Expr{e})
+	return vmObjOf(info, r[0])
 }
 
 func vmTraceStr(tr []vmEm) string {
@@ -360,18 +484,25 @@ func vmCompUnits(c *Ctx) *vmCompWalk {
 	w := &vmCompWalk{}
 	for _, fn := range r.fns {
 		obj, _ := fn.info.Defs[fn.fd.Name].(*types.Func)
-		if obj == nil || !r.emitters[obj] || obj == r.insert {
+		if obj == nil || !r.emitters[obj] || obj == r.insert || r.emitWrapper(fn) {
 			continue
 		}
 		info := fn.info
-		res := vmWalk(vmWalkOpts{fn: fn, correlate: true, replace: vmSlicer(func(n ast.Node) bool {
+		res := vmWalk(vmWalkOpts{fn: fn, correlate: true, inline: func(callee *vmFn, call *ast.CallExpr) bool {
+			if vmPurePredicate(callee) || r.emitWrapper(callee) {
+				return true
+			}
+			// straight-line wrappers of the scope / loop stack operations (`enterLoop(…)`)
+			cobj, _ := callee.info.Defs[callee.fd.Name].(*types.Func)
+			return !r.emitters[cobj] && vmStraightLine(callee) && vmCompBalance(c).wrappers.isWrapper(cobj)
+		}, replace: vmSlicer(func(n ast.Node) bool {
 			switch x := n.(type) {
 			case *ast.CallExpr:
 				g := CalleeOf(info, x)
 				if g == nil {
 					return false
 				}
-				if r.emitters[g] {
+				if r.emitters[g] || vmCompBalance(c).wrappers.isWrapper(g) {
 					return true
 				}
 				for _, roles := range []*vmStackRoles{r.scopes, r.loops} {
@@ -447,3 +578,141 @@ func vmClausePos(e vmEv) token.Pos {
 
 // normal: the path ends by returning / falling off the end (not by panic).
 func vmNormalExit(p *vmPath) bool { return p.o.kind == cReturn || p.o.kind == cNormal }
+
+// ---------------------------------------------------------------- delegation
+
+// A clause of a kind dispatcher may hand its own subject node (possibly
+// type-asserted) to another emitter function instead of lowering it in place:
+// `case ForStatementKind: self.compileForStmt(node.(AnalyzedForStatement))`.
+// That is not a child compilation (the node is the same one), so obligations
+// anchored at the clause ("the for lowering …") are decided on the clause's
+// paths with the delegate's paths spliced in.
+
+// delegateOf: the emCompile event passes the unit function's own parameter on.
+func (r *vmCompilerRoles) delegateOf(fn *vmFn, p *vmPath, e vmEm) *vmFn {
+	if e.kind != emCompile || e.callee == nil || e.node == nil {
+		return nil
+	}
+	g := r.byObj[e.callee.Origin()]
+	if g == nil || g.fd == fn.fd {
+		return nil
+	}
+	x, _, _ := vmResolveAt(fn.info, p.binds, p.ev, e.evIdx, e.node)
+	x = ast.Unparen(x)
+	if ta, ok := x.(*ast.TypeAssertExpr); ok {
+		x = ast.Unparen(ta.X)
+		// `node := node.(T)`: the asserted operand may itself be a shadowing local
+		x, _, _ = vmResolveAt(fn.info, p.binds, p.ev, e.evIdx, x)
+		x = ast.Unparen(x)
+		if ta2, ok := x.(*ast.TypeAssertExpr); ok {
+			x = ast.Unparen(ta2.X)
+		}
+	}
+	obj := vmObjOf(fn.info, x)
+	if obj == nil {
+		return nil
+	}
+	// a parameter of the function the path started in, or of a delegate already spliced in
+	isParam := false
+	check := func(f *vmFn) {
+		for _, po := range vmParamObjs(f) {
+			if po != nil && po == obj {
+				isParam = true
+			}
+		}
+	}
+	check(fn)
+	for _, ev := range p.ev {
+		if ev.K == evMarker {
+			if m, ok := ev.Payload.(vmInlineMark); ok && m.enter {
+				check(m.fn)
+			}
+		}
+	}
+	if !isParam {
+		return nil
+	}
+	return g
+}
+
+var vmExpandCache = map[*vmCompUnit]*vmCompUnit{}
+
+// vmExpandUnit returns the unit with every delegation spliced in (two levels).
+func vmExpandUnit(c *Ctx, r *vmCompilerRoles, w *vmCompWalk, u *vmCompUnit) *vmCompUnit {
+	if x := vmExpandCache[u]; x != nil {
+		return x
+	}
+	out := &vmCompUnit{fn: u.fn, name: u.name, pos: u.pos}
+	in := vmNewInl(c, nil)
+	type item struct {
+		p     *vmPath
+		tr    []vmEm
+		depth int
+	}
+	var work []item
+	for pi := range u.paths {
+		work = append(work, item{u.paths[pi], u.trs[pi], 0})
+	}
+	for len(work) > 0 {
+		it := work[0]
+		work = work[1:]
+		var g *vmFn
+		k := -1
+		if it.depth < 2 {
+			for i, e := range it.tr {
+				if d := r.delegateOf(u.fn, it.p, e); d != nil {
+					g, k = d, i
+					break
+				}
+			}
+		}
+		if g == nil {
+			out.paths = append(out.paths, it.p)
+			out.trs = append(out.trs, it.tr)
+			continue
+		}
+		at := it.tr[k].evIdx
+		binds := map[ast.Stmt]vmBindKind{}
+		for s, b := range it.p.binds {
+			binds[s] = b
+		}
+		var bindEv []vmEv
+		bindEv = append(bindEv, vmEv{K: evMarker, Payload: vmInlineMark{fn: g, call: it.tr[k].call, enter: true}, Pos: it.tr[k].pos})
+		for _, s := range in.bindings(it.tr[k].call, g) {
+			as := s.(*ast.AssignStmt)
+			binds[as] = in.binds[as]
+			if len(as.Lhs) == 1 && len(as.Rhs) == 1 {
+				bindEv = append(bindEv, vmEv{K: evAssign, Lhs: as.Lhs[0], Rhs: as.Rhs[0], Tok: as.Tok, Stmt: as, Pos: as.Pos()})
+			}
+		}
+		n := 0
+		for _, gu := range w.units {
+			if gu.fn.fd != g.fd {
+				continue
+			}
+			for qi := range gu.paths {
+				q := gu.paths[qi]
+				n++
+				np := &vmPath{o: it.p.o, binds: binds}
+				np.ev = append(np.ev, it.p.ev[:at]...)
+				np.ev = append(np.ev, bindEv...)
+				np.ev = append(np.ev, q.ev...)
+				np.ev = append(np.ev, it.p.ev[at+1:]...)
+				for s, b := range q.binds {
+					binds[s] = b
+				}
+				if q.o.kind == cPanic {
+					np.o = q.o
+					np.ev = np.ev[:at+len(bindEv)+len(q.ev)]
+				}
+				work = append(work, item{np, r.trace(u.fn, np), it.depth + 1})
+			}
+		}
+		if n == 0 {
+			out.paths = append(out.paths, it.p)
+			out.trs = append(out.trs, it.tr)
+		}
+	}
+	vmExpandCache[u] = out
+	return out
+}
